@@ -25,6 +25,7 @@ PROPS = {
     "C11": "harness.corr_shuffle",
     "C20": "harness.corr_digraph",
     "C07": "harness.corr_channel",
+    "C09": "harness.corr_suites",
 }
 
 TRUSTED_BASE = [
